@@ -846,3 +846,49 @@ Proof.
   - exists (B "tcp://" ++ kelvin ++ B ".com:80"). vm_compute. auto.
   - exists (B "tcp://" ++ repeat (chr 255) 22 ++ B ":80"). vm_compute. auto.
 Qed.
+
+(* ---- the hypotheses of the theorems above are satisfiable ------------------------------------------------ *)
+Example grammar_inhabited :
+  AddressG Documented (B "tls://[2001:db8::1.2.3.4]:7770") /\ AddressG Documented (B "tcp://EPFL.ch.:+80") /\
+  AddressG Documented (B "local://:0") /\ AddressG Lenient (B "tcp://[localhost]:80") /\
+  ~ AddressG Documented (B "tcp://[localhost]:80") /\ ~ AddressG Lenient (B "tcp://1.2.3.4:65536").
+Proof.
+  repeat split.
+  - apply (valid_iff_grammar documented). vm_compute. reflexivity.
+  - apply (valid_iff_grammar documented). vm_compute. reflexivity.
+  - apply (valid_iff_grammar documented). vm_compute. reflexivity.
+  - apply (valid_iff_grammar pinned). vm_compute. reflexivity.
+  - intros H. apply (valid_iff_grammar documented) in H. vm_compute in H. discriminate.
+  - intros H. apply (valid_iff_grammar pinned) in H. vm_compute in H. discriminate.
+Qed.
+
+Example parts_inhabited :
+  exists ty hp h p, AddressParts (mode_of pinned) (B "tcp://[::1]:2000") ty hp h p /\
+                    host pinned (B "tcp://[::1]:2000") = Ok h /\ h = B "::1" /\ p = B "2000".
+Proof.
+  assert (V : valid pinned (B "tcp://[::1]:2000") = Ok true) by (vm_compute; reflexivity).
+  apply valid_iff_grammar in V. destruct V as (ty & hp & h & p & P).
+  destruct (accessors_valid _ _ _ _ _ _ P) as (_ & _ & _ & H & Pt).
+  exists ty, hp, h, p. split; auto. split; auto.
+  assert (H' : host pinned (B "tcp://[::1]:2000") = Ok (B "::1")) by (vm_compute; reflexivity).
+  assert (P' : port pinned (B "tcp://[::1]:2000") = Ok (B "2000")) by (vm_compute; reflexivity).
+  rewrite H in H'. rewrite Pt in P'. inversion H'. inversion P'. auto.
+Qed.
+
+Example invalid_inhabited : valid pinned (B "tls://1000.0.0.4:2000") = Ok false /\ valid pinned [] = Ok false.
+Proof. vm_compute. auto. Qed.
+
+Example listen_inhabited :
+  get_listen_address pinned (B "tcp://1.2.3.4:1234") [] = Ok (B ":1234") /\
+  get_listen_address pinned (B "tcp://1.2.3.4:1234") (B "4.3.2.1") = Ok (B "4.3.2.1:1234") /\
+  get_listen_address pinned (B "tcp://1.2.3.4:1234") (B "4.3.2.1:4321") = Ok (B "4.3.2.1:4321") /\
+  get_listen_address pinned (B "tcp://1.2.3.4:1234") (B "::1") = Err.
+Proof. vm_compute. auto. Qed.
+
+Example ws_inhabited :
+  get_ws_host_port pinned (B "tcp://8.8.8.8:7770") [] false = WOk (B "8.8.8.8:7771") /\
+  get_ws_host_port pinned (B "tcp://8.8.8.8:7770") [] true = WOk (B "0.0.0.0:7771") /\
+  get_ws_host_port pinned (B "tcp://8.8.8.8:7770") (B "https://example.com/path") false = WOk (B "example.com:443") /\
+  get_ws_host_port pinned (B "tcp://8.8.8.8:7770") (B "http://[::1]:8080") false = WOk (B "[::1]:8080") /\
+  get_ws_host_port pinned (B "tcp://8.8.8.8:7770") (B "http://h:65536") false = WErr.
+Proof. vm_compute. auto. Qed.
